@@ -117,8 +117,8 @@ pub fn case_strategy(cfg: GenCfg) -> impl Strategy<Value = ProgCase> {
 pub fn property() -> Property {
     let families: Vec<Box<dyn Family>> = vec![prop_family(
         "programs",
-        40_000,
-        2_000_000,
+        150_000,
+        3_000_000,
         |_| case_strategy(GenCfg::C03),
         check_prog,
     )];
